@@ -5,7 +5,7 @@ from hypothesis import strategies as st
 
 from .. import build, oracle, pipegen, refsem
 from ..exprgen import Cfg, Scope
-from ..pipeline_oracle import classify_case, close_run, examine_pipeline, exc_name, reraise_control
+from ..pipeline_oracle import classify_case, close_run, examine_pipeline, exc_name, reraise_control, sqlite_full_join_quirk
 from ..runner import Outcome
 from . import Check
 
@@ -126,6 +126,8 @@ class C09(Check):
                         out.count("engine_quirk:polars_optimizer")
                     elif kind == "polars" and run.prefix_quirk:
                         out.count("engine_quirk:prefix:" + run.prefix_quirk)  # the table itself is a victim of an engine bug
+                    elif kind == "sqlite" and sqlite_full_join_quirk(run.case2, rv):
+                        out.count("engine_quirk:sqlite_full_join_in_compound_subquery")  # DESIGN 4.15 (h)
                     else:
                         out.fail("mismatch", f"{kind}:probe:{mm.kind}", f"{kind}: probe columns differ from the referenced data: {mm}")
                 except BaseException as ex:  # noqa: BLE001
